@@ -145,6 +145,71 @@ def mapOutcome' {α β : Type} (f : α → Outcome β) : List α → Outcome (Li
   | [] => .ok []
   | a :: as => f a >>= fun b => mapOutcome' f as >>= fun bs => .ok (b :: bs)
 
+/-- tail-recursive twin of `mapOutcome'` for compiled code (rings of 10^7 points and more), by the proved equation below -/
+def mapOutcomeTR'.go {α β : Type} (f : α → Outcome β) : List α → List β → Outcome (List β)
+  | [], acc => .ok acc.reverse
+  | a :: as, acc =>
+    match f a with
+    | .ok b => mapOutcomeTR'.go f as (b :: acc)
+    | .err e => .err e
+    | .panic k => .panic k
+
+def mapOutcomeTR' {α β : Type} (f : α → Outcome β) (l : List α) : Outcome (List β) := mapOutcomeTR'.go f l []
+
+theorem mapOutcomeTR'_go_eq {α β : Type} (f : α → Outcome β) : ∀ (l : List α) (acc : List β),
+    mapOutcomeTR'.go f l acc = (mapOutcome' f l >>= fun bs => .ok (acc.reverse ++ bs)) := by
+  intro l
+  induction l with
+  | nil => intro acc; simp [mapOutcomeTR'.go, mapOutcome']
+  | cons a as ih =>
+    intro acc
+    unfold mapOutcomeTR'.go mapOutcome'
+    cases h : f a with
+    | ok b =>
+      simp only [Outcome.bind_ok]
+      rw [ih]
+      cases mapOutcome' f as with
+      | ok bs => simp
+      | err e => simp
+      | panic k => simp
+    | err e => simp
+    | panic k => simp
+
+@[csimp] theorem mapOutcome'_eq_TR : @mapOutcome' = @mapOutcomeTR' := by
+  funext α β f l
+  unfold mapOutcomeTR'
+  rw [mapOutcomeTR'_go_eq]
+  cases mapOutcome' f l <;> simp
+
+theorem normalizeLongitudes_mapOutcomeF_eq {α β : Type} (f : α → Outcome β) :
+    ∀ l : List α, normalizeLongitudes.mapOutcomeF f l = mapOutcome' f l := by
+  intro l
+  induction l with
+  | nil => rfl
+  | cons a as ih => unfold normalizeLongitudes.mapOutcomeF mapOutcome'; rw [ih]
+
+/-- `normalizeLongitudes` with its local sequential map replaced by `mapOutcome'` (hence, in compiled code, by the tail-recursive twin) -/
+def normalizeLongitudesFast (contour : List (Float × Float)) : Outcome (List (Float × Float)) :=
+  match contour with
+  | [] => .ok []
+  | first :: _ =>
+    let pts := contour.map (fun (lon, lat) => let (t, p) := fromLonLat lon lat; toCartesian t p)
+    let c := pts.foldl (fun (acc : V3) p => ⟨acc.x + p.x, acc.y + p.y, acc.z + p.z⟩) ⟨0.0, 0.0, 0.0⟩
+    let length := (c.x * c.x + c.y * c.y + c.z * c.z).sqrt
+    let c : V3 := if length > 0.0 then ⟨c.x / length, c.y / length, c.z / length⟩ else c
+    let (ct, cp) := toSpherical c
+    let (centerLon0, centerLat) := toLonLat ct cp
+    let centerLon := if !(fc Gen.POLE_LAT_LO ≤ centerLat && centerLat ≤ fc Gen.POLE_LAT_HI) then first.1 else centerLon0
+    let centerLon := fmod360 (fmod360 (centerLon + 180.0) + 360.0) - 180.0
+    mapOutcome' (fun (lon, lat) => unwrapLon 64 lon centerLon >>= fun l => .ok (l, lat)) contour
+
+@[csimp] theorem normalizeLongitudes_eq_fast : @normalizeLongitudes = @normalizeLongitudesFast := by
+  funext contour
+  unfold normalizeLongitudes normalizeLongitudesFast
+  cases contour with
+  | nil => rfl
+  | cons first rest => simp only [normalizeLongitudes_mapOutcomeF_eq]
+
 /-- `cell_to_boundary(cell, Some(options))`; `segments = none` is the resolution-dependent default -/
 def cellToBoundary (id : Nat) (closedRing : Bool) (segments : Option Nat) : Outcome (List (Float × Float)) :=
   if id = Gen.WORLD_CELL then .ok []
